@@ -194,22 +194,26 @@ def statement_starts(group):
 PROMPT_STYLES = ['new', 'old', 'oldterm']
 
 
-def layout_group(group, style):
-    """-> list of docstring lines (relative to the chunk indentation)"""
+def layout_group(group, style, detail=False):
+    """-> list of docstring lines (relative to the chunk indentation); with ``detail`` a list of
+    (docstring line, line as re-formatted by xdoctest, executable line)"""
     starts = statement_starts(group)
     out = []
     n = len(group['lines'])
     for i, (mark, text) in enumerate(group['lines']):
         if mark == 'U4':
-            out.append(('    ' + text) if text else '')
+            out.append((('    ' + text) if text else '', ('    ' + text) if text else '', text))
         elif mark == 'U0':
-            out.append(text)
+            out.append((text, '... ' + text, text))
         else:
             pre = '>>> ' if (i in starts or style == 'new') else '... '
-            out.append((pre + text).rstrip() if text == '' else pre + text)
+            ln = (pre + text).rstrip() if text == '' else pre + text
+            out.append((ln, ln, text))
     if style == 'oldterm' and n > 1 and (n - 1) not in starts and not group['lines'][-1][0]:
-        out.append('...')
-    return out
+        out.append(('...', '...', ''))
+    if detail:
+        return out
+    return [t[0] for t in out]
 
 
 def render_want(text):
@@ -242,6 +246,8 @@ def gen_program(D, max_groups=8, kinds=None, want_bias=2):
     since = ''
     meta = []
     doc = []      # (line, label, gi)
+    fmt_lines = []   # src and want lines as xdoctest re-formats them (chunk indentation removed)
+    exec_lines = []  # executable line for every src-labelled docstring line
     feats = set()
     if D.chance(1, 3):
         doc.append(('Some leading prose.', 'text', -1))
@@ -272,11 +278,14 @@ def gen_program(D, max_groups=8, kinds=None, want_bias=2):
             if choice and since:
                 want = render_want(since)
                 since = ''
-        for ln in layout_group(g, style):
+        for ln, fmt, exe in layout_group(g, style, detail=True):
             doc.append((example_indent + ln if ln else ln, 'src', gi))
+            fmt_lines.append(fmt)
+            exec_lines.append(exe)
         if want:
             for ln in want:
                 doc.append((example_indent + ln, 'want', gi))
+                fmt_lines.append(ln)
         # separator
         last = gi == len(groups) - 1
         sep = D.choice(['none', 'blank', 'prose', 'blank2', 'dedent_prose'])
@@ -313,4 +322,5 @@ def gen_program(D, max_groups=8, kinds=None, want_bias=2):
     prog = [t for g in groups for _, t in g['lines']]
     labels = [[lab, gi] for _, lab, gi in doc]
     return {'doc': text, 'prog': prog, 'groups': meta, 'labels': labels, 'features': sorted(feats),
-            'base_indent': base_indent, 'example_indent': example_indent}
+            'base_indent': base_indent, 'example_indent': example_indent,
+            'fmt_lines': fmt_lines, 'exec_lines': exec_lines}
